@@ -705,7 +705,9 @@ func (w *simWorld) adjInDump(p *peer) []simRibRoute {
 	var out []simRibRoute
 	fams := p.configuredRFlist()
 	for _, path := range p.adjRibIn.PathList(fams, false) {
-		out = append(out, simRibRoute{Fam: path.GetFamily().String(), Prefix: path.GetNlri().String(), RID: path.RemoteID(),
+		// LID: the local path identifier the Adj-RIB-In copy still carries is hidden state with future effects (it is
+		// what the path re-enters the Loc-RIB with after a soft reset in)
+		out = append(out, simRibRoute{Fam: path.GetFamily().String(), Prefix: path.GetNlri().String(), RID: path.RemoteID(), LID: path.LocalID(),
 			Attrs: simAttrCanon(path.GetPathAttrs(), nil), Stale: path.IsStale(), Best: !path.IsRejected(), TS: path.GetTimestamp().Unix()})
 	}
 	sort.Slice(out, func(i, j int) bool {
